@@ -18,10 +18,18 @@ WRAPS = ('poll', 'recv', 'send', 'connect', 'getsockopt', 'accept', 'socket', 'c
          'clock_gettime', 'bind', 'setsockopt', 'malloc', 'calloc', 'realloc', 'free', 'strdup')
 
 
+HTTPS_SRCS = ['http/https.c', 'network_ssl/network_ssl.c', 'network_ssl/network_ssl_compat.c',
+              'netbuf/netbuf_ssl.c']
+
+
 def build(ctx, nopool):
-    objs = ctx.builder.lib('asan', SRCS, nopool=nopool)
+    """The driver is linked with the HTTPS entry point as well: in `httpsfirst`
+    mode the process makes one https_request (connection refused) before the
+    plain requests, which must not be affected by it."""
+    objs = ctx.builder.lib('asan', SRCS + HTTPS_SRCS, nopool=nopool)
     return ctx.builder.driver('c08', 'asan', ['c08_http.c', 'common/simk.c', 'common/wrapalloc.c'],
-                              objs, wraps=WRAPS, libs=(), nopool=nopool, defs=('VH_WRAPALLOC',))
+                              objs, wraps=WRAPS, libs=('-lssl', '-lcrypto'), nopool=nopool,
+                              defs=('VH_WRAPALLOC', 'WITH_HTTPS'))
 
 
 def judge(c, ans):
@@ -92,10 +100,15 @@ def gen(seed, tier, n):
 
 
 def _shard(a):
-    exe, seed, tier, n, leak = a
+    exe, seed, tier, n, leak = a[:5]
+    httpsfirst = a[5] if len(a) > 5 else False
     cases = gen(seed, tier, n)
-    r = core.line_shard(exe, cases, judge=judge, args=(['leakcheck'] if leak else []), timeout=1800)
+    r = core.line_shard(exe, cases, judge=judge,
+                        args=(['leakcheck'] if leak else []) + (['httpsfirst'] if httpsfirst else []), timeout=1800)
     st = {}
+    if httpsfirst:
+        st['requests_after_a_https_request_in_the_same_process'] = len(cases)
+    st['connection_socket_is_descriptor_0'] = sum(1 for c in cases if ((int(c['line'].split()[4]) >> 7) % 4) == 0)
     for c in cases:
         k = 'framing_' + c['meta']['framing']
         st[k] = st.get(k, 0) + 1
@@ -117,7 +130,7 @@ def run(ctx):
     for mode in (0, 1):
         exe = build(ctx, bool(mode))
         for i in range(core.NCPU):
-            jobs.append((exe, seeds[mode * core.NCPU + i], ctx.tier, per, bool(mode)))
+            jobs.append((exe, seeds[mode * core.NCPU + i], ctx.tier, per, bool(mode), i % 2 == 1))
     res = core.pmap(_shard, jobs)
     core.merge(ctx, res)
     for r in res[:4]:
